@@ -8,7 +8,7 @@ from .model import ClassInfo, EnumMember, ExtRef, FuncInfo, ParamsValue
 from .interp_expr import SuperV, truth, as_bytes_parts
 from .trace import Effect, Inline, New, Op, Opaque, Raise, Risk
 from .values import (AttrFieldV, BytesV, ClassV, ComposerV, DictV, FieldV, FuncV, InputV, LambdaV, ListV, ModuleV,
-                     ObjV, ParserV, SelfV, Sym, Unknown, ValidatorV, is_const)
+                     ObjV, ParserV, SelfV, Sym, Unknown, ValidatorV, is_const, show)
 
 MUTATORS = {'append', 'insert', 'extend', 'pop', 'remove', 'clear', 'update', 'sort', 'reverse', 'add', 'discard',
             'setdefault', 'popitem', '__setitem__', '__delitem__', '__iadd__'}
@@ -387,6 +387,9 @@ class CallMixin:
         if func.module.external and not (func.kind == 'classmethod' and not args and not kwargs):
             # the dependency is consulted for constants only, never interpreted as DSL code
             mex = external_table()['methods'].get(func.name)
+            only = external_table().get('when_first_argument_is', {}).get(func.name)
+            if mex and only and not (args and show(args[0]).startswith(only + '(')):
+                mex = None      # the documented error belongs to one kind of argument (see external.json notes)
             if mex:
                 self.risk(fr, 'ext:' + func.qualname, tuple(mex), args[0] if args else recv, node)
             return Sym('extcall', func.qualname, recv if recv is not None else None, *args)
@@ -733,6 +736,9 @@ class CallMixin:
             self.risk(fr, 'ext:' + d, tuple(ex), a0, node)
         if d.split('.')[-1] in external_table()['methods'] and '.' in d and ex is None:
             mex = external_table()['methods'][d.split('.')[-1]]
+            only = external_table().get('when_first_argument_is', {}).get(d.split('.')[-1])
+            if mex and only and not (args and show(a0).startswith(only + '(')):
+                mex = None
             if mex and not all(is_const(a) for a in args):
                 self.risk(fr, 'ext:' + d, tuple(mex), a0, node)
         return Sym('call', d, *args, *[('kw', k, v) for k, v in kwargs.items()])
